@@ -17,6 +17,9 @@ class Service {
     this.proc = null
     this.restarts = 0
     this.closed = false
+    this.timeouts = 0
+    this.maxTimeouts = opts.maxTimeouts || 4 // circuit breaker: a systematic hang must not cost 20 s per leaf
+    this.tripped = false
   }
 
   _start () {
@@ -34,9 +37,10 @@ class Service {
       if (!head) return
       if (resp.id !== head.req.id) return // stale line from a dying process
       this.pending.shift()
-      if (resp.status === 'timeout') proc._expectDeath = true // watchdog answers, then exits
+      if (resp.status === 'timeout') { proc._expectDeath = true; this.timeouts++ } // watchdog answers, then exits
       resp.id = head.userId
       head.resolve(resp)
+      if (this.timeouts >= this.maxTimeouts && !this.tripped) this._trip()
     })
     proc.on('close', (code, signal) => {
       if (this.proc !== proc) return
@@ -56,7 +60,20 @@ class Service {
     })
   }
 
+  // after maxTimeouts hangs every outstanding and later request is answered `skipped` (the hangs
+  // themselves have been reported; the run is marked as capped by the caller)
+  _trip () {
+    this.tripped = true
+    const rest = this.pending
+    this.pending = []
+    const proc = this.proc
+    this.proc = null
+    if (proc) { try { proc.kill('SIGKILL') } catch (e) {} }
+    for (const p of rest) p.resolve({ id: p.userId, status: 'skipped' })
+  }
+
   _send (p) {
+    if (this.tripped) { p.resolve({ id: p.userId, status: 'skipped' }); return }
     if (!this.proc) this._start()
     this.pending.push(p)
     this.proc.stdin.write(JSON.stringify(p.req) + '\n')
